@@ -205,3 +205,354 @@ Proof.
   exists q, r. repeat (split; [assumption|]). split; [auto|].
   rewrite Hrv. destruct Hmno as [_ ->]. apply rem_neg_one.
 Qed.
+
+(* ---------- the tests at the head of every wrapper ---------- *)
+
+Lemma mno_test_true w n a b : 0 < w -> (0 < n)%nat -> wf w n a -> wf w n b ->
+  min_neg_one w n a b -> eq_digits a (IMIN w n) && eq_digits b (NEG_ONE w n) = true.
+Proof.
+  intros Hw Hn Ha Hb [E1 E2]. rewrite (eq_IMIN_spec w n a), (eq_NEG_ONE_spec w n b) by auto.
+  rewrite E1, E2, !Z.eqb_refl. reflexivity.
+Qed.
+
+Lemma mno_test_false w n a b : 0 < w -> (0 < n)%nat -> wf w n a -> wf w n b ->
+  ~ min_neg_one w n a b -> eq_digits a (IMIN w n) && eq_digits b (NEG_ONE w n) = false.
+Proof.
+  intros Hw Hn Ha Hb Hno. rewrite (eq_IMIN_spec w n a), (eq_NEG_ONE_spec w n b) by auto.
+  apply andb_false_iff. unfold min_neg_one in Hno.
+  destruct (Z.eqb_spec (sval w a) (- (Mod w n / 2))); [|left; reflexivity].
+  destruct (Z.eqb_spec (sval w b) (-1)); [|right; reflexivity]. tauto.
+Qed.
+
+Lemma zero_test_true w n b : 0 < w -> (0 < n)%nat -> wf w n b -> sval w b = 0 -> is_zero b = true.
+Proof. intros Hw Hn Hb E. rewrite (is_zero_sval w n) by auto. apply Z.eqb_eq. exact E. Qed.
+
+Lemma zero_test_false w n b : 0 < w -> (0 < n)%nat -> wf w n b -> sval w b <> 0 -> is_zero b = false.
+Proof. intros Hw Hn Hb E. rewrite (is_zero_sval w n) by auto. apply Z.eqb_neq. exact E. Qed.
+
+(* the MIN / 1 shortcut of the overflowing forms, reached only when MIN / -1 has been excluded *)
+Lemma shortcut_test w n a b : 0 < w -> (0 < n)%nat -> wf w n a -> wf w n b ->
+  ~ min_neg_one w n a b -> eq_digits a (IMIN w n) && is_one b = true ->
+  sval w a = - (Mod w n / 2) /\ sval w b = 1.
+Proof.
+  intros Hw Hn Ha Hb Hno E. apply andb_true_iff in E. destruct E as [E1 E2].
+  rewrite (eq_IMIN_spec w n a) in E1 by auto. rewrite (is_one_spec w n b) in E2 by auto.
+  apply Z.eqb_eq in E1, E2. split; [exact E1|].
+  destruct (uval_one_sval w n b Hw Hn Hb E2) as [S1 | [_ S1]]; [exact S1|].
+  exfalso. apply Hno. split; assumption.
+Qed.
+
+Lemma mno_dec w n a b : min_neg_one w n a b \/ ~ min_neg_one w n a b.
+Proof. unfold min_neg_one. lia. Qed.
+
+Lemma mno_nz w n a b : min_neg_one w n a b -> sval w b <> 0.
+Proof. intros [_ E]. lia. Qed.
+
+(* ---------- overflowing_div / overflowing_rem, div / rem ---------- *)
+
+Theorem I_overflowing_div_ok dbg w n a b :
+  0 < w -> U_div_rem_spec w -> (0 < n)%nat -> wf w n a -> wf w n b ->
+  (sval w b = 0 -> I_overflowing_div dbg w a b = Panic) /\
+  (min_neg_one w n a b -> I_overflowing_div dbg w a b = Ret (a, true)) /\
+  (sval w b <> 0 -> ~ min_neg_one w n a b ->
+     exists q, I_overflowing_div dbg w a b = Ret (q, false) /\ wf w n q /\
+       sval w q = Z.quot (sval w a) (sval w b)).
+Proof.
+  intros Hw HS Hn Ha Hb. unfold I_overflowing_div. cbv zeta. rewrite (wf_length _ _ _ Ha).
+  split; [|split].
+  - intros Hz. rewrite (zero_test_true w n b) by auto. reflexivity.
+  - intros Hm. rewrite (zero_test_false w n b) by (auto; eapply mno_nz; eauto).
+    rewrite (mno_test_true w n a b) by auto. reflexivity.
+  - intros Hnz Hno. rewrite (zero_test_false w n b), (mno_test_false w n a b) by auto.
+    destruct (eq_digits a (IMIN w n) && is_one b) eqn:Esc.
+    + destruct (shortcut_test w n a b Hw Hn Ha Hb Hno Esc) as [E1 E2].
+      exists a. split; [reflexivity|]. split; [exact Ha|]. rewrite E2, Z.quot_1_r. reflexivity.
+    + destruct (I_div_rem_unchecked_ok dbg w n a b Hw HS Hn Ha Hb Hnz Hno)
+        as (q & r & -> & Hq & Hr & Hqv & Hrv).
+      cbn [omap fst]. exists q. auto.
+Qed.
+
+Theorem I_overflowing_rem_ok dbg w n a b :
+  0 < w -> U_div_rem_spec w -> (0 < n)%nat -> wf w n a -> wf w n b ->
+  (sval w b = 0 -> I_overflowing_rem dbg w a b = Panic) /\
+  (min_neg_one w n a b -> I_overflowing_rem dbg w a b = Ret (ZERO n, true)) /\
+  (sval w b <> 0 -> ~ min_neg_one w n a b ->
+     exists r, I_overflowing_rem dbg w a b = Ret (r, false) /\ wf w n r /\
+       sval w r = Z.rem (sval w a) (sval w b)).
+Proof.
+  intros Hw HS Hn Ha Hb. unfold I_overflowing_rem. cbv zeta. rewrite (wf_length _ _ _ Ha).
+  split; [|split].
+  - intros Hz. rewrite (zero_test_true w n b) by auto. reflexivity.
+  - intros Hm. rewrite (zero_test_false w n b) by (auto; eapply mno_nz; eauto).
+    rewrite (mno_test_true w n a b) by auto. reflexivity.
+  - intros Hnz Hno. rewrite (zero_test_false w n b), (mno_test_false w n a b) by auto.
+    destruct (I_div_rem_unchecked_ok dbg w n a b Hw HS Hn Ha Hb Hnz Hno)
+      as (q & r & -> & Hq & Hr & Hqv & Hrv).
+    cbn [omap snd]. exists r. auto.
+Qed.
+
+(* inherent div / rem (and strict_div / strict_rem): panic exactly on a zero divisor or MIN / -1,
+   in both build modes *)
+Theorem I_div_ok dbg w n a b :
+  0 < w -> U_div_rem_spec w -> (0 < n)%nat -> wf w n a -> wf w n b ->
+  (sval w b = 0 \/ min_neg_one w n a b -> I_div dbg w a b = Panic) /\
+  (sval w b <> 0 -> ~ min_neg_one w n a b ->
+     SRet w n (I_div dbg w a b) (Z.quot (sval w a) (sval w b))).
+Proof.
+  intros Hw HS Hn Ha Hb. unfold I_div. cbv zeta. rewrite (wf_length _ _ _ Ha). split.
+  - intros [Hz | Hm].
+    + rewrite (zero_test_true w n b) by auto. destruct (_ && _); reflexivity.
+    + rewrite (mno_test_true w n a b) by auto. reflexivity.
+  - intros Hnz Hno. rewrite (zero_test_false w n b), (mno_test_false w n a b) by auto.
+    destruct (I_div_rem_unchecked_ok dbg w n a b Hw HS Hn Ha Hb Hnz Hno)
+      as (q & r & -> & Hq & Hr & Hqv & Hrv).
+    cbn [omap fst]. exists q. auto.
+Qed.
+
+Theorem I_rem_ok dbg w n a b :
+  0 < w -> U_div_rem_spec w -> (0 < n)%nat -> wf w n a -> wf w n b ->
+  (sval w b = 0 \/ min_neg_one w n a b -> I_rem dbg w a b = Panic) /\
+  (sval w b <> 0 -> ~ min_neg_one w n a b ->
+     SRet w n (I_rem dbg w a b) (Z.rem (sval w a) (sval w b))).
+Proof.
+  intros Hw HS Hn Ha Hb. unfold I_rem. cbv zeta. rewrite (wf_length _ _ _ Ha). split.
+  - intros [Hz | Hm].
+    + rewrite (zero_test_true w n b) by auto. destruct (_ && _); reflexivity.
+    + rewrite (mno_test_true w n a b) by auto. reflexivity.
+  - intros Hnz Hno. rewrite (zero_test_false w n b), (mno_test_false w n a b) by auto.
+    destruct (I_div_rem_unchecked_ok dbg w n a b Hw HS Hn Ha Hb Hnz Hno)
+      as (q & r & -> & Hq & Hr & Hqv & Hrv).
+    cbn [omap snd]. exists r. auto.
+Qed.
+
+Theorem I_strict_div_ok dbg w n a b :
+  0 < w -> U_div_rem_spec w -> (0 < n)%nat -> wf w n a -> wf w n b ->
+  (sval w b = 0 \/ min_neg_one w n a b -> I_strict_div dbg w a b = Panic) /\
+  (sval w b <> 0 -> ~ min_neg_one w n a b ->
+     SRet w n (I_strict_div dbg w a b) (Z.quot (sval w a) (sval w b))).
+Proof. exact (I_div_ok dbg w n a b). Qed.
+
+Theorem I_strict_rem_ok dbg w n a b :
+  0 < w -> U_div_rem_spec w -> (0 < n)%nat -> wf w n a -> wf w n b ->
+  (sval w b = 0 \/ min_neg_one w n a b -> I_strict_rem dbg w a b = Panic) /\
+  (sval w b <> 0 -> ~ min_neg_one w n a b ->
+     SRet w n (I_strict_rem dbg w a b) (Z.rem (sval w a) (sval w b))).
+Proof. exact (I_rem_ok dbg w n a b). Qed.
+
+(* ---------- pure Z: Euclidean division ---------- *)
+
+(* remainder in [0, |SB|), quotient determined by q * SB + r = SA *)
+Definition erem (SA SB : Z) : Z := SA mod Z.abs SB.
+Definition ediv (SA SB : Z) : Z := (SA - erem SA SB) / SB.
+
+Lemma euclid_unique SA SB q r : SB <> 0 -> SA = q * SB + r -> 0 <= r < Z.abs SB ->
+  q = ediv SA SB /\ r = erem SA SB.
+Proof.
+  intros Hnz E Hr. assert (Hrem : r = erem SA SB).
+  { unfold erem. destruct (Z.abs_spec SB) as [[Hs Ha] | [Hs Ha]]; rewrite Ha in *.
+    - apply Z.mod_unique_pos with (q := q); lia.
+    - apply Z.mod_unique_pos with (q := - q); lia. }
+  split; [|exact Hrem]. unfold ediv. rewrite <- Hrem.
+  replace (SA - r) with (q * SB) by lia. symmetry. apply Z.div_mul. exact Hnz.
+Qed.
+
+Lemma euclid_spec SA SB : SB <> 0 ->
+  ediv SA SB * SB + erem SA SB = SA /\ 0 <= erem SA SB < Z.abs SB.
+Proof.
+  intros Hnz. assert (Hb : 0 <= erem SA SB < Z.abs SB) by (apply Z.mod_pos_bound; lia).
+  split; [|exact Hb]. unfold ediv.
+  assert (Hd : (SB | SA - erem SA SB)).
+  { unfold erem. apply Z.divide_abs_l. apply Z.mod_divide; [lia|].
+    rewrite Zminus_mod, Z.mod_mod, Z.sub_diag by lia. apply Z.mod_0_l. lia. }
+  destruct Hd as [k Hk]. rewrite Hk, Z.div_mul by exact Hnz. lia.
+Qed.
+
+(* the adjustment of the truncated pair that the model performs *)
+Lemma euclid_from_trunc SA SB : SB <> 0 ->
+  ediv SA SB =
+    (if (SA <? 0) && negb (Z.rem SA SB =? 0)
+     then if SB <? 0 then Z.quot SA SB + 1 else Z.quot SA SB - 1
+     else Z.quot SA SB) /\
+  erem SA SB =
+    (if Z.rem SA SB <? 0 then if SB <? 0 then Z.rem SA SB - SB else Z.rem SA SB + SB
+     else Z.rem SA SB).
+Proof.
+  intros Hnz. destruct (quot_rem_facts SA SB Hnz) as (E & Hab & Hpos & Hneg).
+  set (q := Z.quot SA SB) in *. set (r := Z.rem SA SB) in *.
+  destruct (Z.ltb_spec SA 0) as [HA|HA]; destruct (Z.eqb_spec r 0) as [Hr|Hr]; cbn [andb negb];
+    destruct (Z.ltb_spec r 0) as [Hr0|Hr0]; try lia;
+    try (destruct (euclid_unique SA SB q r Hnz E ltac:(lia)) as [<- <-]; split; reflexivity).
+  - destruct (Z.ltb_spec SB 0) as [HB|HB].
+    + destruct (euclid_unique SA SB (q + 1) (r - SB) Hnz ltac:(lia) ltac:(lia)) as [<- <-].
+      split; reflexivity.
+    + destruct (euclid_unique SA SB (q - 1) (r + SB) Hnz ltac:(lia) ltac:(lia)) as [<- <-].
+      split; reflexivity.
+Qed.
+
+(* magnitude of the truncated quotient when the remainder is not zero *)
+Lemma quot_small SA SB h : SB <> 0 -> - h <= SA < h -> - h <= SB < h -> Z.rem SA SB <> 0 ->
+  2 <= h /\ 2 * Z.abs (Z.quot SA SB) + 1 <= h.
+Proof.
+  intros Hnz RA RB Hr. destruct (quot_rem_abs SA SB Hnz) as [Q R].
+  assert (Hm : Z.abs SA mod Z.abs SB <> 0) by (destruct (SA <? 0); lia).
+  assert (HY : 2 <= Z.abs SB).
+  { destruct (Z.eq_dec (Z.abs SB) 1) as [E1|]; [|lia]. rewrite E1, Z.mod_1_r in Hm. lia. }
+  pose proof (Z.div_mod (Z.abs SA) (Z.abs SB) ltac:(lia)) as E.
+  pose proof (Z.mod_pos_bound (Z.abs SA) (Z.abs SB) ltac:(lia)).
+  assert (0 <= Z.abs SA / Z.abs SB) by (apply Z.div_pos; lia).
+  assert (Z.abs (Z.quot SA SB) = Z.abs SA / Z.abs SB) by (destruct (xorb _ _); lia).
+  split; [lia|]. nia.
+Qed.
+
+Lemma quot_sign SA SB : SB <> 0 ->
+  (((SA <? 0) = (SB <? 0)) -> 0 <= Z.quot SA SB) /\ (((SA <? 0) <> (SB <? 0)) -> Z.quot SA SB <= 0).
+Proof.
+  intros Hnz. destruct (quot_rem_abs SA SB Hnz) as [Q _].
+  assert (0 <= Z.abs SA / Z.abs SB) by (apply Z.div_pos; lia).
+  destruct (SA <? 0); destruct (SB <? 0); cbn [xorb] in Q; split; intros; try congruence; lia.
+Qed.
+
+(* ---------- overflowing_div_euclid / overflowing_rem_euclid ---------- *)
+
+Lemma four_le_Mod w n h : 0 < w -> (0 < n)%nat -> h = Mod w n / 2 -> 2 <= h -> 4 <= Mod w n.
+Proof. intros Hw Hn -> Hh. pose proof (Mod_even w n Hw Hn). lia. Qed.
+
+(* the +-1 adjustment of the truncated quotient never overflows: it is only made when the
+   remainder is nonzero, i.e. |SB| >= 2, so |quotient| <= (M/2 - 1) / 2 *)
+Theorem I_overflowing_div_euclid_ok dbg w n a b :
+  0 < w -> U_div_rem_spec w -> (0 < n)%nat -> wf w n a -> wf w n b ->
+  (sval w b = 0 -> I_overflowing_div_euclid dbg w a b = Panic) /\
+  (min_neg_one w n a b -> I_overflowing_div_euclid dbg w a b = Ret (a, true)) /\
+  (sval w b <> 0 -> ~ min_neg_one w n a b ->
+     exists q, I_overflowing_div_euclid dbg w a b = Ret (q, false) /\ wf w n q /\
+       sval w q = ediv (sval w a) (sval w b)).
+Proof.
+  intros Hw HS Hn Ha Hb. unfold I_overflowing_div_euclid. cbv zeta. rewrite (wf_length _ _ _ Ha).
+  split; [|split].
+  - intros Hz. rewrite (zero_test_true w n b) by auto. reflexivity.
+  - intros Hm. rewrite (zero_test_false w n b) by (auto; eapply mno_nz; eauto).
+    rewrite (mno_test_true w n a b) by auto. reflexivity.
+  - intros Hnz Hno. rewrite (zero_test_false w n b), (mno_test_false w n a b) by auto.
+    destruct (eq_digits a (IMIN w n) && is_one b) eqn:Esc.
+    + destruct (shortcut_test w n a b Hw Hn Ha Hb Hno Esc) as [E1 E2].
+      exists a. split; [reflexivity|]. split; [exact Ha|]. rewrite E2.
+      apply (euclid_unique (sval w a) 1 (sval w a) 0); lia.
+    + destruct (I_div_rem_unchecked_ok dbg w n a b Hw HS Hn Ha Hb Hnz Hno)
+        as (q & r & -> & Hq & Hr & Hqv & Hrv).
+      cbn [obind]. rewrite (is_negative_spec w n a), (is_negative_spec w n b) by auto.
+      rewrite (is_zero_sval w n r) by auto. rewrite Hrv.
+      destruct (euclid_from_trunc (sval w a) (sval w b) Hnz) as [ED _]. rewrite ED, <- Hqv.
+      pose proof (sval_range w n a Hw Hn Ha) as RA. pose proof (sval_range w n b Hw Hn Hb) as RB.
+      destruct ((sval w a <? 0) && negb (Z.rem (sval w a) (sval w b) =? 0)) eqn:Ec.
+      * apply andb_true_iff in Ec. destruct Ec as [_ Ec]. apply negb_true_iff, Z.eqb_neq in Ec.
+        destruct (quot_small (sval w a) (sval w b) (Mod w n / 2) Hnz RA RB Ec) as [H2 Hq2].
+        rewrite <- Hqv in Hq2.
+        pose proof (four_le_Mod w n _ Hw Hn eq_refl H2) as H4.
+        pose proof (sval_ONE w n Hw Hn H4) as S1.
+        destruct (sval w b <? 0).
+        -- destruct (I_add_ok dbg w n q (ONE n) Hw Hn Hq (wf_ONE w n Hw)) as (x & -> & Hx & Hxv);
+             [rewrite S1; lia|].
+           cbn [omap]. exists x. rewrite Hxv, S1. auto.
+        -- destruct (I_sub_ok dbg w n q (ONE n) Hw Hn Hq (wf_ONE w n Hw)) as (x & -> & Hx & Hxv);
+             [rewrite S1; lia|].
+           cbn [omap]. exists x. rewrite Hxv, S1. auto.
+      * exists q. auto.
+Qed.
+
+Theorem I_overflowing_rem_euclid_ok dbg w n a b :
+  0 < w -> U_div_rem_spec w -> (0 < n)%nat -> wf w n a -> wf w n b ->
+  (sval w b = 0 -> I_overflowing_rem_euclid dbg w a b = Panic) /\
+  (min_neg_one w n a b -> I_overflowing_rem_euclid dbg w a b = Ret (ZERO n, true)) /\
+  (sval w b <> 0 -> ~ min_neg_one w n a b ->
+     exists r, I_overflowing_rem_euclid dbg w a b = Ret (r, false) /\ wf w n r /\
+       sval w r = erem (sval w a) (sval w b)).
+Proof.
+  intros Hw HS Hn Ha Hb. unfold I_overflowing_rem_euclid. cbv zeta. rewrite (wf_length _ _ _ Ha).
+  split; [|split].
+  - intros Hz. rewrite (zero_test_true w n b) by auto. reflexivity.
+  - intros Hm. rewrite (zero_test_false w n b) by (auto; eapply mno_nz; eauto).
+    rewrite (mno_test_true w n a b) by auto. reflexivity.
+  - intros Hnz Hno. rewrite (zero_test_false w n b), (mno_test_false w n a b) by auto.
+    destruct (I_div_rem_unchecked_ok dbg w n a b Hw HS Hn Ha Hb Hnz Hno)
+      as (q & r & -> & Hq & Hr & Hqv & Hrv).
+    cbn [omap snd]. rewrite (is_negative_spec w n r), (is_negative_spec w n b) by auto.
+    destruct (euclid_from_trunc (sval w a) (sval w b) Hnz) as [_ ER]. rewrite ER, <- Hrv.
+    destruct (quot_rem_facts (sval w a) (sval w b) Hnz) as (_ & Hab & _ & _). rewrite <- Hrv in Hab.
+    pose proof (sval_range w n b Hw Hn Hb) as RB.
+    pose proof (Mod_pos w n ltac:(lia)) as HM. pose proof (Mod_even w n Hw Hn) as HMe.
+    destruct (Z.ltb_spec (sval w r) 0) as [Hr0|Hr0]; [|exists r; auto].
+    destruct (Z.ltb_spec (sval w b) 0) as [Hb0|Hb0].
+    + destruct (I_wrapping_sub_spec w n r b Hw Hn Hr Hb) as (W1 & _ & W3).
+      eexists. split; [reflexivity|]. split; [exact W1|]. rewrite W3. apply wrapS_id; lia.
+    + destruct (I_wrapping_add_spec w n r b Hw Hn Hr Hb) as (W1 & _ & W3).
+      eexists. split; [reflexivity|]. split; [exact W1|]. rewrite W3. apply wrapS_id; lia.
+Qed.
+
+(* ---------- generic projections of an overflowing form ---------- *)
+
+Definition ovf_spec (w : Z) (n : nat) (a b : list Z) (o : outcome (list Z * bool)) (vm v : Z) : Prop :=
+  (sval w b = 0 -> o = Panic) /\
+  (min_neg_one w n a b -> exists x, o = Ret (x, true) /\ wf w n x /\ sval w x = vm) /\
+  (sval w b <> 0 -> ~ min_neg_one w n a b ->
+     exists x, o = Ret (x, false) /\ wf w n x /\ sval w x = v).
+
+Lemma ocheck_of_ovf w n a b o vm v : 0 < w -> (0 < n)%nat -> wf w n b -> ovf_spec w n a b o vm v ->
+  (sval w b = 0 \/ min_neg_one w n a b -> ocheck (is_zero b) o = Ret None) /\
+  (sval w b <> 0 -> ~ min_neg_one w n a b ->
+     exists x, ocheck (is_zero b) o = Ret (Some x) /\ wf w n x /\ sval w x = v).
+Proof.
+  intros Hw Hn Hb (Hz & Hm & Hok). unfold ocheck. split.
+  - intros [E|E].
+    + rewrite (zero_test_true w n b) by auto. reflexivity.
+    + rewrite (zero_test_false w n b) by (auto; eapply mno_nz; eauto).
+      destruct (Hm E) as (x & -> & _). reflexivity.
+  - intros Hnz Hno. rewrite (zero_test_false w n b) by auto.
+    destruct (Hok Hnz Hno) as (x & -> & Hx & Hv). exists x. cbn [omap tuple_to_option snd fst]. auto.
+Qed.
+
+Lemma wrap_of_ovf w n a b o vm v : ovf_spec w n a b o vm v ->
+  (sval w b = 0 -> omap fst o = Panic) /\
+  (min_neg_one w n a b -> SRet w n (omap fst o) vm) /\
+  (sval w b <> 0 -> ~ min_neg_one w n a b -> SRet w n (omap fst o) v).
+Proof.
+  intros (Hz & Hm & Hok). split; [|split].
+  - intros E. rewrite (Hz E). reflexivity.
+  - intros E. destruct (Hm E) as (x & -> & Hx & Hv). exists x. cbn [omap fst]. auto.
+  - intros Hnz Hno. destruct (Hok Hnz Hno) as (x & -> & Hx & Hv). exists x. cbn [omap fst]. auto.
+Qed.
+
+Lemma I_overflowing_div_ovf dbg w n a b :
+  0 < w -> U_div_rem_spec w -> (0 < n)%nat -> wf w n a -> wf w n b ->
+  ovf_spec w n a b (I_overflowing_div dbg w a b) (- (Mod w n / 2)) (Z.quot (sval w a) (sval w b)).
+Proof.
+  intros Hw HS Hn Ha Hb. destruct (I_overflowing_div_ok dbg w n a b Hw HS Hn Ha Hb) as (H1 & H2 & H3).
+  split; [exact H1|]. split; [|exact H3]. intros Hm. exists a. rewrite (H2 Hm). destruct Hm. auto.
+Qed.
+
+Lemma I_overflowing_div_euclid_ovf dbg w n a b :
+  0 < w -> U_div_rem_spec w -> (0 < n)%nat -> wf w n a -> wf w n b ->
+  ovf_spec w n a b (I_overflowing_div_euclid dbg w a b) (- (Mod w n / 2)) (ediv (sval w a) (sval w b)).
+Proof.
+  intros Hw HS Hn Ha Hb.
+  destruct (I_overflowing_div_euclid_ok dbg w n a b Hw HS Hn Ha Hb) as (H1 & H2 & H3).
+  split; [exact H1|]. split; [|exact H3]. intros Hm. exists a. rewrite (H2 Hm). destruct Hm. auto.
+Qed.
+
+Lemma I_overflowing_rem_ovf dbg w n a b :
+  0 < w -> U_div_rem_spec w -> (0 < n)%nat -> wf w n a -> wf w n b ->
+  ovf_spec w n a b (I_overflowing_rem dbg w a b) 0 (Z.rem (sval w a) (sval w b)).
+Proof.
+  intros Hw HS Hn Ha Hb. destruct (I_overflowing_rem_ok dbg w n a b Hw HS Hn Ha Hb) as (H1 & H2 & H3).
+  split; [exact H1|]. split; [|exact H3]. intros Hm. exists (ZERO n). rewrite (H2 Hm).
+  split; [reflexivity|]. split; [apply wf_ZERO; lia | apply sval_ZERO; auto].
+Qed.
+
+Lemma I_overflowing_rem_euclid_ovf dbg w n a b :
+  0 < w -> U_div_rem_spec w -> (0 < n)%nat -> wf w n a -> wf w n b ->
+  ovf_spec w n a b (I_overflowing_rem_euclid dbg w a b) 0 (erem (sval w a) (sval w b)).
+Proof.
+  intros Hw HS Hn Ha Hb.
+  destruct (I_overflowing_rem_euclid_ok dbg w n a b Hw HS Hn Ha Hb) as (H1 & H2 & H3).
+  split; [exact H1|]. split; [|exact H3]. intros Hm. exists (ZERO n). rewrite (H2 Hm).
+  split; [reflexivity|]. split; [apply wf_ZERO; lia | apply sval_ZERO; auto].
+Qed.
